@@ -17,7 +17,7 @@ HARNESS_BIN = os.path.join(TARGET, "debug", "acts-verif")
 DRIVER_BIN = os.path.join(LEAN, ".lake", "build", "bin", "driver")
 REPO = os.environ.get("VERIF_REPO", "/repo")
 ALLOWED_AXIOMS = {"propext", "Classical.choice", "Quot.sound"}
-FORBIDDEN = ["sorry", "admit", "native_decide", "bv_decide", "implemented_by", "unsafe ", "maxHeartbeats 0"]
+FORBIDDEN = ["sorry", "admit", "native_decide", "bv_decide", "implemented_by", "unsafe", "maxHeartbeats 0"]
 
 TRUSTED_BASE = [
     "Lean 4.33 kernel (leanchecker re-check in the thorough tier)",
@@ -80,8 +80,9 @@ def lean_sources_clean(paths):
         txt = open(p, encoding="utf-8").read()
         txt = re.sub(r"/-.*?-/", "", txt, flags=re.S)
         txt = re.sub(r"--.*", "", txt)
+        txt = re.sub(r'"(?:[^"\\]|\\.)*"', '""', txt)
         for w in FORBIDDEN:
-            if re.search(r"(?<![A-Za-z_])" + re.escape(w), txt):
+            if re.search(r"(?<![A-Za-z_.])" + re.escape(w) + r"(?![A-Za-z_0-9])", txt):
                 hits.append(f"{os.path.relpath(p, LEAN)}: {w.strip()}")
         if re.search(r"^\s*axiom\s", txt, flags=re.M):
             hits.append(f"{os.path.relpath(p, LEAN)}: axiom")
